@@ -163,6 +163,21 @@ def run(ctx):
         got = {l: n for l, n in zip(labels, counts) if n}
         ctx.check("count_kmers", got == dict(exp), "count_kmers/counts:%s" % wclass(k), "count_kmers differs from Counter of windows: %r vs %r" % (dict(list(got.items())[:4]), dict(list(exp.items())[:4])),
                   dict(c, got=got, expected=dict(exp)), (ename, tuple(rows), k))
+        # counts per sequence (axis=-1): row i of the count matrix is the window multiset of sequence i, rows shorter than k included (all zero)
+        try:
+            res_rows = count_kmers(seqs, k, axis=-1)
+            mat = np.asarray(res_rows.counts)
+            lab_rows = list(res_rows.alphabet)
+            got_rows = [{l: int(n) for l, n in zip(lab_rows, rowc) if n} for rowc in mat.tolist()] if mat.ndim == 2 else None
+        except Exception as e:
+            from bnpmon.ctx import originates_in_library
+            if not originates_in_library(e):
+                raise
+            got_rows = "raised %s" % type(e).__name__
+        exp_rows = [dict(Counter(windows(r, k))) for r in rows]
+        ctx.check("count_kmers", got_rows == exp_rows, "count_kmers/counts-per-sequence(axis=-1)", "count_kmers(axis=-1) gave %r, the windows of each sequence are %r" % (str(got_rows)[:200], str(exp_rows)[:200]),
+                  dict(c, got=str(got_rows)[:600], expected=str(exp_rows)[:600]), (ename, tuple(rows), k, "axis") if any(len(r) < k for r in rows) and any(len(r) >= k for r in rows) else None)
+        ctx.count("count_kmers_per_sequence")
         # the accessors of the counts object agree with the same multiset
         if got == dict(exp) and exp:
             total_w = sum(exp.values())
